@@ -165,7 +165,7 @@ pub fn check(ctx: &mut Ctx) {
         ctx.require_class(&format!("B={:?}", ds));
     }
     ctx.replay_corpus(replay);
-    ctx.random("respell", 420, 250_000, 2_500_000, gen, oracle);
+    ctx.random("respell", 420, 250_000, 15_000_000, gen, oracle);
     ctx.reshrink::<RespellCase, _, _>("respell", oracle, |c, fails| {
         let doc = astgen::minimize_doc(&c.doc, |d| fails(&RespellCase { doc: d.clone(), a: c.a.clone(), b: c.b.clone(), cfg: c.cfg.clone() }));
         RespellCase { doc, a: c.a.clone(), b: c.b.clone(), cfg: c.cfg.clone() }
